@@ -62,6 +62,10 @@ def sdecN (d : SDec) : Nat → RState → SOut (List Val) × RState
   | n+1, s =>
     match d s with
     | (.val v, s') =>
+      -- nothing was consumed and a huge count remains (reads are failing, or zero-size elements):
+      -- Go loops that many times; the model declines
+      if s'.data.length = s.data.length ∧ loopSlack ≤ n then (.fuel, s')
+      else
       match sdecN d n s' with
       | (.val vs, s'') => (.val (v :: vs), s'')
       | (.ret, s'') => (.ret, s'')
@@ -75,7 +79,9 @@ def sdecEntries (kt : Ty) (dk dv : SDec) : Nat → RState → List (Val × Val) 
     match dk s with
     | (.val k, s1) =>
       match dv s1 with
-      | (.val v, s2) => sdecEntries kt dk dv n s2 (mapInsert kt k v acc)
+      | (.val v, s2) =>
+        if s2.data.length = s.data.length ∧ loopSlack ≤ n then (.fuel, s2)
+        else sdecEntries kt dk dv n s2 (mapInsert kt k v acc)
       | (.ret, s2) => (.ret, s2)
       | (.fuel, s2) => (.fuel, s2)
     | (.ret, s1) => (.ret, s1)
